@@ -407,10 +407,14 @@ def is_acyclic(g):
 
 def make(seed, **kw):
     """Deterministic acyclic workbook for a seed.  case_titles=True: one workbook in
-    four has sheet titles whose case mappings are not mirror images (LAYOUT_CASE)."""
+    four has sheet titles whose case mappings are not mirror images (LAYOUT_CASE) and one
+    in four the same sheet title in two books (LAYOUT_SAME)."""
     kw = dict(kw)
-    if kw.pop('case_titles', False) and seed % 4 == 3 and 'sheets' not in kw:
-        kw['sheets'] = LAYOUT_CASE
+    if kw.pop('case_titles', False) and 'sheets' not in kw:
+        if seed % 4 == 3:
+            kw['sheets'] = LAYOUT_CASE
+        elif seed % 4 == 1:
+            kw['sheets'] = LAYOUT_SAME      # one sheet title in two books
     k = 0
     while True:
         g = Gen(random.Random(seed * 1000003 + k), **kw).build()
